@@ -277,3 +277,68 @@ Theorem C01_fast_pre_compute_eq_partial : forall zs (en : ent) ks en',
   fast_pre_compute ZOps zs en = Some (map (pre_entry ZOps) ks, en').
 Proof. exact fast_pre_compute_eq_partial. Qed.
 Print Assumptions C01_fast_pre_compute_eq_partial.
+
+(* ---- wave 5: key objects, fixed-length signing, context reset ---- *)
+Theorem C01_key_generate_sound : forall (NO : numops) (en : ent) d P rest,
+  key_generate NO en = Some (d, P, rest) ->
+  1 <= d <= n - 2 /\ P = sm2_mulG NO d /\
+  exists used b, en = used ++ b :: rest /\ d = le_to_Z b.
+Proof. exact key_generate_sound. Qed.
+Print Assumptions C01_key_generate_sound.
+
+Theorem C01_key_set_private_spec : forall (NO : numops) d, 0 <= d ->
+  key_set_private NO d = if (1 <=? d) && (d <=? n - 2) then Some (d, sm2_mulG NO d) else None.
+Proof. exact key_set_private_spec. Qed.
+Print Assumptions C01_key_set_private_spec.
+
+Theorem C01_fast_key_spec : forall (NO : numops) d, 0 <= d ->
+  fast_key NO d = if d <? n - 1 then Some (inv_n NO (1 + d)) else None.
+Proof. exact fast_key_spec. Qed.
+Print Assumptions C01_fast_key_spec.
+
+Theorem C01_public_key_digest_spec : forall (NO : numops) x y,
+  public_key_digest NO (Some (x, y)) = Some (sm3 (4%N :: point_bytes NO (Some (x, y)))).
+Proof. exact public_key_digest_spec. Qed.
+Print Assumptions C01_public_key_digest_spec.
+
+Theorem C01_signature_print_strict : forall a,
+  bytes_ok a = true -> signature_print_ok a = true ->
+  exists r s, length r = 32%nat /\ length s = 32%nat /\ a = sig_to_der r s.
+Proof. exact signature_print_strict. Qed.
+Print Assumptions C01_signature_print_strict.
+
+(* sm2_sign_fixlen returns an ordinary sm2_sign output of the requested length, made from a later
+   part of the same entropy stream *)
+Theorem C01_sign_fixlen_sound : forall (NO : numops) d e siglen (en : ent) sg rest,
+  sm2_sign_fixlen NO d e siglen en = Some (sg, rest) ->
+  (siglen = 70 \/ siglen = 71 \/ siglen = 72)%nat /\ length sg = siglen /\
+  exists en1, is_suffix en1 en /\ sm2_sign NO d e en1 = Some (sg, rest).
+Proof. exact sign_fixlen_sound. Qed.
+Print Assumptions C01_sign_fixlen_sound.
+
+Theorem C01_sign_finish_fixlen_stream : forall (NO : numops) d (P : point NO) buf idlen z en c en1 chunks siglen en2,
+  compute_z NO P buf idlen = ZOk z ->
+  sign_init NO d P (Some (buf, idlen)) en = IOk (c, en1) ->
+  sign_finish_fixlen NO (fold_left sign_update chunks c) siglen en2 =
+  if Nat.eqb siglen 0 then None
+  else sm2_sign_fixlen NO d (be_to_Z (sm3 (z ++ concat chunks))) siglen en2.
+Proof. exact sign_finish_fixlen_stream. Qed.
+Print Assumptions C01_sign_finish_fixlen_stream.
+
+(* reset: the next message of a reused context is hashed as SM3(Z || M2) again *)
+Theorem C01_sign_reset_stream : forall (NO : numops) d (P : point NO) buf idlen z en c en1 chunks1 chunks2,
+  compute_z NO P buf idlen = ZOk z ->
+  sign_init NO d P (Some (buf, idlen)) en = IOk (c, en1) ->
+  sm3_finish (sc_sm3 (fold_left sign_update chunks2 (sign_reset (fold_left sign_update chunks1 c)))) =
+  sm3 (z ++ concat chunks2).
+Proof. exact sign_reset_stream. Qed.
+Print Assumptions C01_sign_reset_stream.
+
+Theorem C01_verify_reset_stream : forall (NO : numops) (P : point NO) buf idlen z c chunks1 chunks2,
+  compute_z NO P buf idlen = ZOk z ->
+  verify_init NO P (Some (buf, idlen)) = IOk c ->
+  sm3_finish (vc_sm3 NO (fold_left (verify_update NO) chunks2
+                           (verify_reset NO (fold_left (verify_update NO) chunks1 c)))) =
+  sm3 (z ++ concat chunks2).
+Proof. exact verify_reset_stream. Qed.
+Print Assumptions C01_verify_reset_stream.
